@@ -55,6 +55,8 @@ pub fn worker(property: &str, tier: &str, shard: usize, nshards: usize, cases: C
         if i % nshards != shard {
             continue;
         }
+        writeln!(out, "{}", json!({"start": i})).ok();
+        out.flush().ok();
         let mut r = run(c);
         if r.machinery.is_some() {
             // one retry from scratch; a second failure is reported as machinery, never a verdict
@@ -131,9 +133,32 @@ pub fn run_sharded(rep: &mut Report, property: &str, tier: &str, cases: CasesFn,
         .collect();
     for (s, h) in handles.into_iter().enumerate() {
         let (lines, st) = h.join().expect("worker reader thread");
-        match st {
-            Ok(st) if st.success() => {}
-            other => rep.machinery_error(format!("worker {s} did not exit cleanly: {:?} (an engine crash is a machinery failure, not a verdict)", other)),
+        let mut last_started: Option<usize> = None;
+        let clean = matches!(&st, Ok(x) if x.success());
+        if !clean && !rep.worker_death_is_violation {
+            rep.machinery_error(format!("worker {s} did not exit cleanly: {:?} (an engine crash is a machinery failure, not a verdict)", st));
+        }
+        for l in lines.iter() {
+            if let Ok(v) = serde_json::from_str::<Value>(l) {
+                if let Some(i) = v["start"].as_u64() {
+                    last_started = Some(i as usize);
+                }
+            }
+        }
+        if !clean && rep.worker_death_is_violation {
+            match last_started {
+                Some(i) if i < all.len() => {
+                    seen[i] = true;
+                    // later cases of this shard were never run: not a verdict about them, and not missing either
+                    for (j, sj) in seen.iter_mut().enumerate() {
+                        if j % nshards == s && j > i {
+                            *sj = true;
+                        }
+                    }
+                    rep.violation(Violation::new("abort", format!("the process running the live service died while serving this case: {:?}", st), all[i].clone()).sig("how", "abort").sig("part", "live"));
+                }
+                _ => rep.machinery_error(format!("worker {s} died before starting a case: {:?}", st)),
+            }
         }
         for l in lines {
             let v: Value = match serde_json::from_str(&l) {
@@ -144,6 +169,9 @@ pub fn run_sharded(rep: &mut Report, property: &str, tier: &str, cases: CasesFn,
                 if v["isolated"].as_bool() == Some(true) {
                     agg.isolated_workers += 1;
                 }
+                continue;
+            }
+            if v.get("start").is_some() {
                 continue;
             }
             if v["bye"].as_bool() == Some(true) {
